@@ -447,8 +447,8 @@ theorem nexus_statements_roundtrip_partial (o : WOpts) (ro : ROpts) (hc : Consis
 
 open Aux in
 /-- NEXUS, TREE statements WITH a TRANSLATE table: the statements are written with tokens in place of taxon labels;
-    read with a symbol mapper that holds the table `tm` (token ↦ label), every tag that has an entry resolves
-    through the table — before labels and before taxon numbers — to `resolve … tm tag`, the mapper (namespace
+    read with a symbol mapper that holds the table `tm` (token ↦ label), ALL taxon tags of the trees must have an entry (hypothesis `hasKey`; mixed statements with
+    some untranslated labels are not covered); each resolves through the table — before labels and before taxon numbers — to `resolve … tm tag`, the mapper (namespace
     included) is unchanged, and each tree comes back with its structure, rooting and weight, its taxa sent through
     the table (`decodeWith`).  `_partial`: the TRANSLATE statement text and the block grammar are not in the model
     (the table is handed over as the writer built it); see `resolve_key` for `resolve` on the writer's own table. -/
@@ -485,6 +485,277 @@ theorem resolve_key (cf : Char → Char) : ∀ (tm : List (Str × Str)), Distinc
       have : (lowerWith cf q.1 == lowerWith cf p.1) = false := by simpa using hne
       simp only [List.find?, this]
       exact ih
+
+/-! ### TRANSLATE end to end: label → token on the writer side, token → label on the reader side -/
+
+mutual
+/-- the tree the NEXUS writer hands to the Newick writer when a TRANSLATE table is in force: taxon labels replaced
+    by their tokens (`_get_taxon_tree_token`) -/
+def retag (g : Str → Str) : NT → NT
+  | .node tx lb ln cs => .node (tx.map g) lb ln (retagL g cs)
+def retagL (g : Str → Str) : List NT → List NT
+  | [] => []
+  | c :: cs => retag g c :: retagL g cs
+end
+
+mutual
+def taxLabels : NT → List Str
+  | .node tx _ _ cs => taxLabelsL cs ++ (match tx with | some s => [s] | none => [])
+def taxLabelsL : List NT → List Str
+  | [] => []
+  | c :: cs => taxLabels c ++ taxLabelsL cs
+end
+
+/-- the token the writer uses for a label: the key of the first table entry with that label -/
+def tokenOf (tm : List (Str × Str)) (l : Str) : Str :=
+  match tm.find? (fun p => p.2 == l) with
+  | some p => p.1
+  | none => l
+
+namespace Aux
+
+theorem tokenOf_spec (cf : Char → Char) (tm : List (Str × Str)) (hk : DistinctCI cf (tm.map (·.1))) (l : Str)
+    (hl : l ∈ tm.map (·.2)) : resolve cf tm (tokenOf tm l) = l ∧ hasKey cf tm (tokenOf tm l) := by
+  unfold tokenOf
+  cases hf : tm.find? (fun p => p.2 == l) with
+  | none =>
+    rw [List.find?_eq_none] at hf
+    obtain ⟨p, hp, rfl⟩ := List.mem_map.mp hl
+    exact absurd (by simp) (hf p hp)
+  | some p =>
+    have hp := List.mem_of_find?_eq_some hf
+    have hpl : p.2 = l := by simpa using List.find?_some hf
+    refine ⟨by rw [resolve_key cf tm hk p hp, hpl], ?_⟩
+    unfold hasKey
+    cases hh : tm.find? (fun q => lowerWith cf q.1 == lowerWith cf p.1) with
+    | some q => rfl
+    | none =>
+      rw [List.find?_eq_none] at hh
+      exact absurd (by simp) (hh p hp)
+
+mutual
+theorem retag_tree (o : WOpts) (ro : ROpts) (ho : o.sltl = false ∧ o.slnl = true ∧ o.sitl = false ∧ o.sinl = false ∧ o.sel = false)
+    (g G : Str → Str) : ∀ (t : NT), Carried ro t → (∀ s ∈ taxLabels t, g s ≠ [] ∧ G (g s) = s) →
+    decodeWith G ro (toRT o (retag g t)) = t ∧ taxaOf ro (toRT o (retag g t)) = (taxaOf ro (toRT o t)).map g
+  | .node tx lb ln cs, h, hg => by
+    obtain ⟨h1, h2, h3, h4⟩ := h
+    have ih := retag_treeL o ro ho g G cs h4 (fun s hs => hg s (by simp [taxLabels, hs]))
+    obtain ⟨o1, o2, o3, o4, o5⟩ := ho
+    have hlen : lenOf o ln = ln := by cases ln <;> simp [lenOf, o5]
+    cases cs with
+    | nil =>
+      simp only [List.isEmpty_nil, if_true] at h3
+      obtain ⟨hlb, hsl⟩ := h3
+      subst hlb
+      cases tx with
+      | none => simp [retag, retagL, toRT, toRTL, tagOf, rawTag, joinSp, decodeWith, decodeWithL, taxaOf, taxaOfL, hlen]
+      | some s =>
+        have hs := h1 s rfl
+        obtain ⟨hg1, hg2⟩ := hg s (by simp [taxLabels, taxLabelsL])
+        cases s with
+        | nil => exact absurd rfl hs
+        | cons a b =>
+          cases hgs : g (a :: b) with
+          | nil => exact absurd hgs hg1
+          | cons a' b' =>
+            rw [hgs] at hg2
+            simp [retag, retagL, toRT, toRTL, tagOf, rawTag, joinSp, decodeWith, decodeWithL, taxaOf, taxaOfL, hlen, o1, o2, hsl, hgs, hg2]
+    | cons c cs' =>
+      simp only [List.isEmpty_cons, Bool.false_eq_true, if_false] at h3
+      have hne : toRTL o (retagL g (c :: cs')) ≠ [] := by simp [retagL, toRTL]
+      have hne' : toRTL o (c :: cs') ≠ [] := by simp [toRTL]
+      have hr : retagL g (c :: cs') ≠ [] := by simp [retagL]
+      cases hsi : ro.sint with
+      | true =>
+        simp only [hsi, if_true] at h3
+        subst h3
+        cases lb with
+        | none => simp [retag, toRT, tagOf, rawTag, joinSp, decodeWith, taxaOf, hlen, ih.1, ih.2]
+        | some s =>
+          have := h2 s rfl
+          cases s with
+          | nil => exact absurd rfl this
+          | cons a b => simp [retag, toRT, tagOf, rawTag, joinSp, decodeWith, taxaOf, hlen, ih.1, ih.2, o3, o4, hsi, hne, hne', hr]
+      | false =>
+        simp only [hsi, Bool.false_eq_true, if_false] at h3
+        subst h3
+        cases tx with
+        | none => simp [retag, toRT, tagOf, rawTag, joinSp, decodeWith, taxaOf, hlen, ih.1, ih.2]
+        | some s =>
+          have hs := h1 s rfl
+          obtain ⟨hg1, hg2⟩ := hg s (by simp [taxLabels])
+          cases s with
+          | nil => exact absurd rfl hs
+          | cons a b =>
+            cases hgs : g (a :: b) with
+            | nil => exact absurd hgs hg1
+            | cons a' b' =>
+              rw [hgs] at hg2
+              simp [retag, toRT, tagOf, rawTag, joinSp, decodeWith, taxaOf, hlen, ih.1, ih.2, o3, o4, hsi, hne, hne', hr, hgs, hg2]
+theorem retag_treeL (o : WOpts) (ro : ROpts) (ho : o.sltl = false ∧ o.slnl = true ∧ o.sitl = false ∧ o.sinl = false ∧ o.sel = false)
+    (g G : Str → Str) : ∀ (cs : List NT), Carried.CarriedL ro cs → (∀ s ∈ taxLabelsL cs, g s ≠ [] ∧ G (g s) = s) →
+    decodeWithL G ro (toRTL o (retagL g cs)) = cs ∧ taxaOfL ro (toRTL o (retagL g cs)) = (taxaOfL ro (toRTL o cs)).map g
+  | [], _, _ => by simp [retagL, toRTL, decodeWithL, taxaOfL]
+  | c :: cs, h, hg => by
+    have h1 := retag_tree o ro ho g G c h.1 (fun s hs => hg s (by simp [taxLabelsL, hs]))
+    have h2 := retag_treeL o ro ho g G cs h.2 (fun s hs => hg s (by simp [taxLabelsL, hs]))
+    simp [retagL, toRTL, decodeWithL, taxaOfL, h1.1, h1.2, h2.1, h2.2]
+end
+
+end Aux
+
+def retagWT (g : Str → Str) (x : WT) : WT := (x.1, x.2.1, retag g x.2.2)
+
+open Aux in
+/-- NEXUS TREE statements with a TRANSLATE table, END TO END on the original trees: the writer replaces every taxon
+    label by its token (`retag (tokenOf tm)`, the `taxon_token_map` of `_set_and_write_translate_block`, default or
+    user supplied), the reader's symbol mapper holds the same table `tm` and resolves token → label before labels and
+    numbers; the trees that come back are the ORIGINAL trees (with their labels), with rooting / weight of their
+    statements, and the mapper is unchanged.  Hypotheses: table keys pairwise different up to the case folding; every
+    taxon label of the trees has an entry with a non-empty token; trees `Carried`, no label twice per tree; the
+    written (token) trees are `OkT` and write something; default label options.  Still outside: the TRANSLATE
+    statement TEXT and the block grammar (`tm` is handed over, not parsed from the document). -/
+theorem nexus_translate_roundtrip (o : WOpts) (ro : ROpts) (hc : Consistent o.ps o.uu ro.pu)
+    (ho : o.sltl = false ∧ o.slnl = true ∧ o.sitl = false ∧ o.sinl = false ∧ o.sel = false)
+    (tm : List (Str × Str)) (ns : List Str) (hk : DistinctCI ro.cf (tm.map (·.1))) (x : WT) (xs : List WT)
+    (hok : ∀ y ∈ x :: xs, OkT o (retag (tokenOf tm) y.2.2) ∧ WritesSomething o (retag (tokenOf tm) y.2.2) ∧
+      (∀ w, y.2.1 = some w → WeightOk w) ∧ Carried ro y.2.2 ∧ (taxaOf ro (toRT o y.2.2)).Nodup ∧
+      (∀ s, (s ∈ taxLabels y.2.2 ∨ s ∈ taxaOf ro (toRT o y.2.2)) → s ∈ tm.map (·.2) ∧ tokenOf tm s ≠ [])) :
+    parseText ro ⟨tm, ns, true⟩ (listText o ((x :: xs).map (retagWT (tokenOf tm)))) =
+      some ((x :: xs).map (fun y => ⟨(treeComments ro (comments o y.1 y.2.1) none none).1,
+                                     (treeComments ro (comments o y.1 y.2.1) none none).2, y.2.2⟩),
+            ⟨tm, ns, true⟩) := by
+  have hrt : ∀ y ∈ x :: xs, decodeWith (resolve ro.cf tm) ro (toRT o (retag (tokenOf tm) y.2.2)) = y.2.2 ∧
+      taxaOf ro (toRT o (retag (tokenOf tm) y.2.2)) = (taxaOf ro (toRT o y.2.2)).map (tokenOf tm) := by
+    intro y hy
+    obtain ⟨_, _, _, hcar, _, hin⟩ := hok y hy
+    exact retag_tree o ro ho (tokenOf tm) (resolve ro.cf tm) y.2.2 hcar
+      (fun s hs => ⟨(hin s (Or.inl hs)).2, (tokenOf_spec ro.cf tm hk s (hin s (Or.inl hs)).1).1⟩)
+  have hpart := nexus_translate_roundtrip_partial o ro hc ⟨tm, ns, true⟩ (retagWT (tokenOf tm) x) (xs.map (retagWT (tokenOf tm)))
+    (by
+      intro y' hy'
+      have hy'' : y' ∈ (x :: xs).map (retagWT (tokenOf tm)) := by simpa using hy'
+      obtain ⟨y, hy, rfl⟩ := List.mem_map.mp hy''
+      obtain ⟨h1, h2, h3, _, h5, hin⟩ := hok y hy
+      refine ⟨h1, h2, h3, ?_, ?_⟩
+      · simp only [retagWT]
+        rw [(hrt y hy).2, List.map_map]
+        have : (taxaOf ro (toRT o y.2.2)).map (resolve ro.cf tm ∘ tokenOf tm) = (taxaOf ro (toRT o y.2.2)).map id := by
+          apply List.map_congr_left
+          intro s hs
+          exact (tokenOf_spec ro.cf tm hk s (hin s (Or.inr hs)).1).1
+        rw [this, List.map_id]
+        exact h5
+      · intro w hw
+        simp only [retagWT] at hw
+        rw [(hrt y hy).2] at hw
+        obtain ⟨s, hs, rfl⟩ := List.mem_map.mp hw
+        exact (tokenOf_spec ro.cf tm hk s (hin s (Or.inr hs)).1).2)
+  have e : (x :: xs).map (retagWT (tokenOf tm)) = retagWT (tokenOf tm) x :: xs.map (retagWT (tokenOf tm)) := rfl
+  rw [e, hpart, ← e]
+  congr 2
+  rw [List.map_map]
+  apply List.map_congr_left
+  intro y hy
+  simp only [Function.comp, resultWith, retagWT]
+  rw [(hrt y hy).1]
+
+/-! ### the TAXLABELS list: namespace labels and their order -/
+
+namespace Aux
+
+theorem skipWs_prefix : ∀ (ws inp : Str), (∀ c ∈ ws, isUncap c = true) → skipWs (ws ++ inp) = skipWs inp := by
+  intro ws
+  induction ws with
+  | nil => intro inp _; rfl
+  | cons c cs ih =>
+    intro inp h
+    simp only [List.cons_append, skipWs, h c (by simp), if_true]
+    exact ih inp (fun d hd => h d (by simp [hd]))
+
+theorem next_skip (pu : Bool) (f : Nat) (ws inp : Str) (cm : List Str) (h : ∀ c ∈ ws, isUncap c = true) :
+    next pu (f + 1) (ws ++ inp) cm = next pu (f + 1) inp cm := by
+  rw [next, next, skipWs_prefix ws inp h]
+
+theorem taxlabels_tokens' (ps uu pu : Bool) (hc : Consistent ps uu pu) : ∀ (ns : List Str),
+    (∀ l ∈ ns, l ≠ [] ∧ ∀ c ∈ l, labelChar c = true) → ∀ (ws : Str), (∀ c ∈ ws, isUncap c = true) →
+    (tokenizeAll pu (ws ++ taxlabelsText ps uu ns)).toks.map (·.text) = ns ++ [[';']] ∧
+    (tokenizeAll pu (ws ++ taxlabelsText ps uu ns)).ok = true := by
+  intro ns
+  induction ns with
+  | nil =>
+    intro _ ws hws
+    have hsp : ∀ c ∈ ws ++ [' ', ' '], isUncap c = true := by
+      intro c hcm
+      simp only [List.mem_append, List.mem_cons, List.mem_nil_iff, or_false] at hcm
+      rcases hcm with h | rfl | rfl
+      · exact hws c h
+      · decide
+      · decide
+    have e : ws ++ taxlabelsText ps uu [] = (ws ++ [' ', ' ']) ++ [';', '\n'] := by
+      simp [taxlabelsText]
+    have hn : nextTok pu ((ws ++ [' ', ' ']) ++ [';', '\n']) = .tok [';'] false [] ['\n'] := by
+      unfold nextTok
+      rw [next_skip pu _ _ _ _ hsp]
+      exact next_punct pu _ ';' (by decide) ['\n'] []
+    rw [e, tokenizeAll_step pu _ _ _ _ _ hn, tokenizeAll_nl]
+    simp
+  | cons l ns ih =>
+    intro hadm ws hws
+    obtain ⟨hne, hdom⟩ := hadm l (by simp)
+    have hsp : ∀ c ∈ ws ++ indent8, isUncap c = true := by
+      intro c hcm
+      simp only [List.mem_append] at hcm
+      rcases hcm with h | h
+      · exact hws c h
+      · have : ∀ d ∈ indent8, isUncap d = true := by decide
+        exact this c h
+    have e : ws ++ taxlabelsText ps uu (l :: ns) =
+        (ws ++ indent8) ++ (escape ps (!uu) protectDefault l ++ '\n' :: taxlabelsText ps uu ns) := by
+      simp [taxlabelsText]
+    obtain ⟨hfo, hpa⟩ := follower_ws '\n' (by decide) (taxlabelsText ps uu ns)
+    obtain ⟨q, hq, _⟩ := next_escape_gen protectDefault covers_default ps uu pu hc l hne hdom ('\n' :: taxlabelsText ps uu ns) hfo
+    have hn : nextTok pu ((ws ++ indent8) ++ (escape ps (!uu) protectDefault l ++ '\n' :: taxlabelsText ps uu ns)) =
+        .tok l q [] (if q then '\n' :: taxlabelsText ps uu ns else plainAfter ('\n' :: taxlabelsText ps uu ns)) := by
+      unfold nextTok
+      rw [next_skip pu _ _ _ _ hsp]
+      exact hq _ []
+    rw [e, tokenizeAll_step pu _ _ _ _ _ hn]
+    cases q with
+    | true =>
+      have := ih (fun l' hl' => hadm l' (by simp [hl'])) ['\n'] (by decide)
+      simp only [if_true, List.cons_append, List.nil_append] at this ⊢
+      simp [this.1, this.2]
+    | false =>
+      have := ih (fun l' hl' => hadm l' (by simp [hl'])) [] (by simp)
+      simp only [Bool.false_eq_true, if_false, hpa, List.nil_append] at this ⊢
+      simp [this.1, this.2]
+
+end Aux
+
+/-- namespace labels and ORDER through NEXUS: tokenizing the TAXLABELS list the NEXUS writer emits (each label through
+    `escape_nexus_token` with the default protect class, one per indented line, then `;`) yields exactly the labels,
+    in order, followed by the `;` token, without a tokenizer error — for every list of admissible labels and every
+    consistent option triple.  (The reader turns each token before the unquoted `;` into the next taxon.) -/
+theorem taxlabels_tokens (ps uu pu : Bool) (hc : Consistent ps uu pu) (ns : List Str)
+    (hadm : ∀ l ∈ ns, l ≠ [] ∧ ∀ c ∈ l, labelChar c = true) :
+    (tokenizeAll pu (taxlabelsText ps uu ns)).toks.map (·.text) = ns ++ [[';']] ∧
+    (tokenizeAll pu (taxlabelsText ps uu ns)).ok = true := by
+  have := Aux.taxlabels_tokens' ps uu pu hc ns hadm [] (by simp)
+  simpa using this
+
+example : (tokenizeAll false (taxlabelsText false false ["a b".toList, "c_d".toList, ";".toList, "2".toList])).toks.map (·.text) =
+    ["a b".toList, "c_d".toList, ";".toList, "2".toList, [';']] :=
+  (taxlabels_tokens false false false (by simp [Consistent]) _ (by decide)).1
+
+/-- undefined rooting: written without a rooting comment, read without a rooting directive, it stays undefined -/
+theorem newick_roundtrip_tree_undefined (o : WOpts) (ro : ROpts) (hc : Consistent o.ps o.uu ro.pu)
+    (ho : o.sltl = false ∧ o.slnl = true ∧ o.sitl = false ∧ o.sinl = false ∧ o.sel = false) (hr : ro.rooting = 0)
+    (t : NT) (hok : OkT o t) (hws : WritesSomething o t) (hcar : Carried ro t)
+    (hd : DistinctCI ro.cf (taxaOf ro (Aux.toRT o t))) :
+    parseText ro {} (writeTree o 0 none t ++ ['\n']) = some ([⟨0, none, t⟩], ⟨[], taxaOf ro (Aux.toRT o t), false⟩) := by
+  rw [newick_roundtrip o ro hc 0 none t hok hws (by simp) hd, Aux.carried_tree o ro ho t hcar]
+  simp [comments, treeComments, rootingState, hr]
 
 /-! ### non-vacuity: the hypotheses are satisfiable, on trees with awkward labels and anonymous leaves -/
 
@@ -588,5 +859,26 @@ example : parseText {} ⟨exTable, ["2".toList, "1".toList, "3".toList], true⟩
       · simp [exTokens, exTable, Aux.toRT, Aux.toRTL, taxaOf, taxaOfL, Aux.tagOf, Aux.lenOf, rawTag, joinSp, hasKey, lowerWith])
 example : resolve Char.toLower exTable "1".toList = "2".toList :=
   resolve_key Char.toLower exTable (by simp [exTable, DistinctCI, lowerWith]) ("1".toList, "2".toList) (by simp [exTable])
+
+/-- `nexus_translate_roundtrip` on the digit-label tree: written through `exTable` (label `2` ↦ token `1`, …), read back
+    as the original tree -/
+example : parseText {} ⟨exTable, ["2".toList, "1".toList, "3".toList], true⟩ (listText {} ([exDigits].map (retagWT (tokenOf exTable)))) =
+    some ([⟨2, none, exDigits.2.2⟩], ⟨exTable, ["2".toList, "1".toList, "3".toList], true⟩) := by
+  have h := nexus_translate_roundtrip {} {} (by simp [Consistent]) (by simp) exTable ["2".toList, "1".toList, "3".toList]
+    (by simp [exTable, DistinctCI, lowerWith]) exDigits []
+    (by
+      intro y hy
+      simp at hy; subst hy
+      refine ⟨?_, ?_, by simp [exDigits], ?_, ?_, ?_⟩
+      · simp [exDigits, exTable, retag, retagL, tokenOf, OkT, OkL, rawTag, joinSp, LenOk]; decide
+      · simp [exDigits, retag, retagL, WritesSomething, Aux.toRT, Aux.toRTL, Aux.isBlank]
+      · simp [exDigits, Carried, Carried.CarriedL]
+      · simp [exDigits, Aux.toRT, Aux.toRTL, taxaOf, taxaOfL, Aux.tagOf, Aux.lenOf, rawTag, joinSp]
+      · intro s hs
+        simp [exDigits, taxLabels, taxLabelsL, Aux.toRT, Aux.toRTL, taxaOf, taxaOfL, Aux.tagOf, Aux.lenOf, rawTag, joinSp] at hs
+        rcases hs with (rfl | rfl | rfl) | (rfl | rfl | rfl) <;> simp [exTable, tokenOf])
+  simp only [List.map] at h ⊢
+  rw [h]
+  simp [exDigits, comments, treeComments, isRootingComment, rootingState, strip, stripL, isSpace]
 
 end DendroModel.C02
